@@ -396,7 +396,7 @@ fn asc_line() -> impl Strategy<Value = String> {
         2 => "date (Mon|Tue|Xxx) (Apr|Foo|Dec) [0-9]{1,2} [0-9]{2}:[0-9]{2}:[0-9]{2}(\\.[0-9]{3})? (am|pm)? ?[0-9]{4}",
         2 => "date (Mon|Thu) (Jan|Apr|Dec) (1|10|31) (00|01|12|23):[0-9]{2}:[0-9]{2}(\\.[0-9]{3})? (am|pm)? ?(0001|0243|1969|1970|9999)",
         1 => Just("base hex  timestamps absolute".to_string()),
-        6 => (num(), num(), "[0-9a-fx]{1,9}", prop_oneof![Just("Rx"), Just("Tx")], num(), prop::collection::vec(prop_oneof![8 => "[0-9a-f]{2}", 1 => "[0-9a-fä€]{1,3}"], 0..10)).prop_map(|(t, c, id, rx, l, d)| format!("   {} {}  {}             {}   d {} {}", t, c, id, rx, l, d.join(" "))),
+        6 => (num(), num(), "[0-9a-fx]{1,9}", prop_oneof![Just("Rx"), Just("Tx")], num(), prop::collection::vec(prop_oneof![8 => "[0-9a-f]{2}", 1 => "[0-9a-fä€]{1,3}"], 0..10)).prop_map(|(t, c, id, rx, l, d)| format!("   {} {}  {}             {}   d {} {}{}", t, c, id, rx, l, d.join(" "), ["", " ", " Length = 0 BitCount = 0 ID = 1", " x"][d.len() % 4])),
         3 => (num(), num(), "[0-9a-fx]{1,9}", num(), num(), prop::collection::vec("[0-9a-f]{2}", 0..10)).prop_map(|(t, c, id, a, l, d)| format!("   {} CANFD   {} Rx        {}                                   {} 0 {}  {} {}", t, c, id, a, l, l, d.join(" "))),
         1 => (num(), num()).prop_map(|(t, c)| format!("   {} CANFD   {} Rx ErrorFrame", t, c)),
         1 => (num(), num()).prop_map(|(t, c)| format!("   {} {}  ErrorFrame", t, c)),
